@@ -29,7 +29,7 @@ def gates(tier):
             'wrong_msg_applicable': 300, 'wrong_msg_not_applicable': 600, 'list_entry_checks': 300,
             'class:StringGrader': 200, 'class:NumericalGrader': 150, 'class:FormulaGrader': 150,
             'class:MatrixGrader': 100, 'class:SingleListGrader': 100, 'author_comparer_calls': 1500,
-            'credit_scaling_checks': 1500, 'message_origin_checks': 3000, 'interval_calls': 4000}
+            'credit_scaling_checks': 1500, 'known_wrong_checks': 1000, 'message_origin_checks': 3000, 'interval_calls': 4000}
 
 
 def specs(rng):
@@ -49,7 +49,8 @@ def specs(rng):
         return ('NumericalGrader', {'tolerance': rng.choice(['5%', '1%', 0.2])}, ['5', '5.1', '10/2', '4.9', '6', '2+3', '5.3', '0'],
                 ['5', '5.05', '4.95', '5.2', '6', '7', '0', '2*2.5'])
     if kind == 'Formula':
-        return ('FormulaGrader', {'variables': ['x'], 'samples': 3}, ['x^2', 'x*x', '2*x', 'x+x', 'x^2+1', 'x', 'x^2+0*x', '3*x'],
+        ns = rng.choice([1, 3, 3])
+        return ('FormulaGrader', {'variables': ['x'], 'samples': ns, 'failable_evals': rng.choice([0, 0, 1, 2]) if ns > 2 else rng.choice([0, 1])}, ['x^2', 'x*x', '2*x', 'x+x', 'x^2+1', 'x', 'x^2+0*x', '3*x'],
                 ['x^2', 'x*x', '2*x', 'x+x', 'x^3', 'x^2+1', 'x'])
     if kind == 'Matrix':
         base = {}
@@ -58,6 +59,7 @@ def specs(rng):
         r = rng.random()
         if r < 0.3:
             base['entry_partial_credit'] = rng.choice([0.5, 'proportional'])     # a comparer that itself awards partial credit
+            base['failable_evals'] = rng.choice([0, 1, 2])                       # (irrelevant for a comparer that sees all samples at once)
         elif r < 0.6:
             # shape mismatches are tolerated (graded wrong) instead of raised: alternatives of different shapes can coexist
             base.update(rng.choice([{'answer_shape_mismatch': {'is_raised': False}}, {'suppress_matrix_messages': True},
@@ -131,6 +133,14 @@ def run_item(ctx):
                 ctx.violation('C08:%s:own_expect_earns_less_than_its_credit' % cls_name,
                               'input %r equals an alternative worth %r but earned %r' % (own, a['grade_decimal'], out.value['grade_decimal']),
                               {'grader': cls_name, 'config': base, 'alternatives': alts, 'input': own})
+        # absolute anchor: an input that matches none of the alternatives in the pool earns nothing
+        nowhere = {'StringGrader': 'bird', 'NumericalGrader': '7', 'FormulaGrader': 'x^3', 'MatrixGrader': '[5,5]', 'SingleListGrader': 'x,y'}[cls_name]
+        out = lib.call(ctx, fulls[0][1], None, nowhere)
+        ctx.ev()
+        ctx.count('known_wrong_checks')
+        if out.returned and out.value['grade_decimal'] != 0:
+            ctx.violation('C08:%s:input_matching_nothing_earns_credit' % cls_name, 'input %r earned %r' % (nowhere, out.value),
+                          {'grader': cls_name, 'config': base, 'alternatives': alts, 'input': nowhere})
         for inp in rng.sample(inputs, min(len(inputs), ctx.pick(3, 6))):
             souts = [lib.call(ctx, g, None, inp) for g in singles]
             ctx.ev(len(souts))
@@ -221,13 +231,20 @@ def run_lists(ctx):
         n = rng.randint(2, 3)
         answer_alts = [make_alts(rng, pool) for _ in range(n)]
         wrong_msg = rng.choice(['', 'WRONG'])
-        sub = StringGrader(wrong_msg=wrong_msg)
+        own = rng.choice(['none', 'none', 'configured', 'used_before'])
+        if own == 'configured':
+            sub = StringGrader(answers=({'expect': 'zzz', 'msg': 'own answer'}, 'bird'), wrong_msg=wrong_msg)    # the list's answers take precedence
+        else:
+            sub = StringGrader(wrong_msg=wrong_msg)
+            if own == 'used_before':
+                lib.call(ctx, sub, 'zzz', 'zzz')        # stand-alone use with an edX expect value, before the list uses it
+        ctx.count('list_subgrader_own_answers:' + own)
         ordered = rng.random() < 0.6
         g = ListGrader(answers=[tuple(a) for a in answer_alts], subgraders=sub, ordered=ordered)
         inputs = [rng.choice(pool + ['zzz']) for _ in range(n)]
         out = lib.call(ctx, g, None, inputs)
         ctx.ev()
-        wit = {'answers': answer_alts, 'inputs': inputs, 'ordered': ordered, 'wrong_msg': wrong_msg, 'outcome': out.brief()}
+        wit = {'answers': answer_alts, 'inputs': inputs, 'ordered': ordered, 'wrong_msg': wrong_msg, 'subgrader_own_answers': own, 'outcome': out.brief()}
         if not out.returned:
             ctx.violation('C08:list:raises', repr(out.exc), wit)
             continue
